@@ -101,6 +101,8 @@ pub enum Op {
     LoadBuffer { m: usize, text: String, name: String, strict: bool },
     /// serialize file f of model m and load the text into m under a new name (always preceded by a sort of m)
     LoadSelf { m: usize, f: usize, name: String, strict: bool },
+    /// get-or-create a chain of elements below the root (used to prepare merge conflicts)
+    EnsureChain { m: usize, chain: Vec<(ElementName, Option<String>)> },
     RemoveFile { m: usize, f: usize },
     Duplicate { m: usize },
     SetVersion { f: usize, version: AutosarVersion },
@@ -142,6 +144,8 @@ pub enum Kind {
     CreateFile,
     LoadBuffer,
     LoadSelf,
+    EnsureChain,
+    MergeConflict,
     RemoveFile,
     Duplicate,
     SetVersion,
@@ -152,7 +156,7 @@ pub enum Kind {
     Cmp,
 }
 
-pub const ALL_KINDS: [Kind; 37] = [
+pub const ALL_KINDS: [Kind; 39] = [
     Kind::CreateSub,
     Kind::CreateSubAt,
     Kind::CreateNamed,
@@ -182,6 +186,8 @@ pub const ALL_KINDS: [Kind; 37] = [
     Kind::CreateFile,
     Kind::LoadBuffer,
     Kind::LoadSelf,
+    Kind::EnsureChain,
+    Kind::MergeConflict,
     Kind::RemoveFile,
     Kind::Duplicate,
     Kind::SetVersion,
@@ -224,6 +230,7 @@ impl Op {
             Op::CreateFile { .. } => Kind::CreateFile,
             Op::LoadBuffer { .. } => Kind::LoadBuffer,
             Op::LoadSelf { .. } => Kind::LoadSelf,
+            Op::EnsureChain { .. } => Kind::EnsureChain,
             Op::RemoveFile { .. } => Kind::RemoveFile,
             Op::Duplicate { .. } => Kind::Duplicate,
             Op::SetVersion { .. } => Kind::SetVersion,
@@ -463,6 +470,7 @@ impl World {
             Op::CreateFile { m, name, version } => format!("m{m}.create_file({name:?}, {version:?})"),
             Op::LoadBuffer { m, text, name, strict } => format!("m{m}.load_buffer(<{} bytes: {}>, {name:?}, strict={strict})", text.len(), crate::json::show_bytes(text.as_bytes().get(HDR.len().min(text.len())..).unwrap_or(b""), 300)),
             Op::LoadSelf { m, f, name, strict } => format!("m{m}.load_buffer(serialize({}), {name:?}, strict={strict})", self.fdesc(*f)),
+            Op::EnsureChain { m, chain } => format!("m{m}.root.get_or_create chain {:?}", chain.iter().map(|(n, i)| format!("{}{}", n.to_str(), i.as_ref().map_or(String::new(), |i| format!("[{i}]")))).collect::<Vec<_>>()),
             Op::RemoveFile { m, f } => format!("m{m}.remove_file({})", self.fdesc(*f)),
             Op::Duplicate { m } => format!("m{m}.duplicate()"),
             Op::SetVersion { f, version } => format!("{}.set_version({version:?})", self.fdesc(*f)),
@@ -563,6 +571,20 @@ impl World {
                     }
                     Err(e) => Outcome::Err(format!("serialize:{}", err_variant(&e)), e.to_string()),
                 }
+            }
+            Op::EnsureChain { m, chain } => {
+                let mut cur = self.models[*m].root_element();
+                for (name, item) in chain {
+                    let r = match item {
+                        Some(item) => cur.get_or_create_named_sub_element(*name, item),
+                        None => cur.get_or_create_sub_element(*name),
+                    };
+                    match r {
+                        Ok(e) => cur = e,
+                        Err(e) => return Outcome::Err(err_variant(&e), e.to_string()),
+                    }
+                }
+                Outcome::Ok("chain".into())
             }
             Op::RemoveFile { m, f } => {
                 self.models[*m].remove_file(&self.files[*f]);
@@ -920,6 +942,34 @@ impl World {
                 }
             }
         }
+        if !self.masks.no_failing_merge && (choice == 1 || choice == 2) {
+            // a partial view that diverges from the model below some identifiable element and also brings new content:
+            // depending on the parent this merges or is rejected with InvalidFileMerge after the merge has started
+            let files: Vec<ArxmlFile> = self.models[m].files().collect();
+            if let Some(f) = self.rng.pick_opt(&files) {
+                if let Ok(mut text) = f.serialize() {
+                    let occurrences: Vec<usize> = text.match_indices("<SHORT-NAME>").map(|(i, _)| i).collect();
+                    if occurrences.len() >= 2 {
+                        let mut at = occurrences[self.rng.range(occurrences.len() / 2, occurrences.len() - 1)];
+                        // prefer a named child of a non-splittable parent
+                        if let Some(tr) = text.rfind("<TIMING-RESOURCE>") {
+                            if self.rng.chance(3, 4) {
+                                if let Some(sn) = text[tr..].find("<SHORT-NAME>") {
+                                    at = tr + sn;
+                                }
+                            }
+                        }
+                        if let Some(end) = text[at..].find("</SHORT-NAME>") {
+                            text.replace_range(at + 12..at + end, "zz9");
+                        }
+                        if let Some(p) = text.find("<AR-PACKAGES>") {
+                            text.insert_str(p + 13, "<AR-PACKAGE><SHORT-NAME>zzNew</SHORT-NAME><ELEMENTS><SYSTEM><SHORT-NAME>zzSys</SHORT-NAME></SYSTEM></ELEMENTS></AR-PACKAGE>");
+                        }
+                        return (text, false);
+                    }
+                }
+            }
+        }
         let names: &[&str] = if self.masks.no_failing_merge { &["n1", "n2", "n3"] } else { &["n1", "n2", "a", "b"] };
         let p = *self.rng.pick(names);
         let q = *self.rng.pick(names);
@@ -1213,6 +1263,38 @@ impl World {
                 };
                 Some(Op::LoadBuffer { m, text, name, strict: self.rng.chance(1, 2) })
             }
+            Kind::EnsureChain => None,
+            Kind::MergeConflict => {
+                // prepare <pkg>/ELEMENTS/<K k>/<C c1> through the API, then load a partial view with <C c2> instead plus a new package:
+                // for a non-splittable K the load is rejected with InvalidFileMerge after the new package has been imported
+                let m = self.pick_model(prof);
+                let files: Vec<ArxmlFile> = self.models[m].files().collect();
+                if files.is_empty() || files.len() >= 4 {
+                    return None;
+                }
+                let version = files.iter().map(|f| f.version()).min()?;
+                let cands = conflict_candidates();
+                let (k, c) = *self.rng.pick_opt(cands)?;
+                let pkg = *self.rng.pick(&["mc", "a", "b"]);
+                let kname = *self.rng.pick(&["k", "a", "a1"]);
+                let chain = vec![
+                    (ElementName::ArPackages, None),
+                    (ElementName::ArPackage, Some(pkg.to_string())),
+                    (ElementName::Elements, None),
+                    (k, Some(kname.to_string())),
+                    (c, Some("c1".to_string())),
+                ];
+                let doc = format!(
+                    "{}<AR-PACKAGES><AR-PACKAGE><SHORT-NAME>zzNew{}</SHORT-NAME><ELEMENTS><SYSTEM><SHORT-NAME>zzSys</SHORT-NAME></SYSTEM></ELEMENTS></AR-PACKAGE><AR-PACKAGE><SHORT-NAME>{pkg}</SHORT-NAME><ELEMENTS><ECU-INSTANCE><SHORT-NAME>zzEcu</SHORT-NAME></ECU-INSTANCE><{k}><SHORT-NAME>{kname}</SHORT-NAME><{c}><SHORT-NAME>c2</SHORT-NAME></{c}></{k}></ELEMENTS></AR-PACKAGE></AR-PACKAGES></AUTOSAR>",
+                    HDR.replace("AUTOSAR_00050.xsd", version.filename()),
+                    self.file_counter,
+                    k = k.to_str(),
+                    c = c.to_str()
+                );
+                self.file_counter += 1;
+                self.pending.push_back(Op::LoadBuffer { m, text: doc, name: format!("conflict{}.arxml", self.file_counter), strict: self.rng.chance(1, 2) });
+                Some(Op::EnsureChain { m, chain })
+            }
             Kind::LoadSelf => {
                 let m = self.pick_model(prof);
                 if self.models[m].files().count() >= 4 {
@@ -1332,6 +1414,12 @@ pub fn seed_model_small(w: &mut World, files: usize, versions: &[AutosarVersion]
                     targets.push(e);
                 }
             }
+            if w.rng.chance(1, 3) {
+                if let Ok(st) = elements.create_named_sub_element(ElementName::SystemTiming, "ab") {
+                    let _ = st.create_named_sub_element(ElementName::TimingResource, "a");
+                    let _ = st.create_named_sub_element(ElementName::TimingResource, "b");
+                }
+            }
         }
         if w.rng.chance(1, 2) {
             if let Ok(sub) = pkg.create_sub_element(ElementName::ArPackages) {
@@ -1417,3 +1505,38 @@ pub fn seed_model_small(w: &mut World, files: usize, versions: &[AutosarVersion]
     idx
 }
 
+
+
+/// (K, C): element kinds K below ELEMENTS that are not splittable and have a named direct child kind C
+pub fn conflict_candidates() -> &'static Vec<(ElementName, ElementName)> {
+    static CANDS: std::sync::OnceLock<Vec<(ElementName, ElementName)>> = std::sync::OnceLock::new();
+    CANDS.get_or_init(|| {
+        let mut out = Vec::new();
+        let model = AutosarModel::new();
+        if model.create_file("scratch.arxml", AutosarVersion::Autosar_4_3_0).is_err() {
+            return out;
+        }
+        let Ok(elements) = model
+            .root_element()
+            .create_sub_element(ElementName::ArPackages)
+            .and_then(|p| p.create_named_sub_element(ElementName::ArPackage, "p"))
+            .and_then(|p| p.create_sub_element(ElementName::Elements))
+        else {
+            return out;
+        };
+        let kinds: Vec<ElementName> = elements.list_valid_sub_elements().iter().filter(|v| v.is_named).map(|v| v.element_name).collect();
+        for (i, k) in kinds.iter().enumerate() {
+            if let Ok(ke) = elements.create_named_sub_element(*k, &format!("k{i}")) {
+                let et = ke.element_type();
+                if et.splittable() == 0 {
+                    for v in ke.list_valid_sub_elements() {
+                        if v.is_named && v.is_allowed && ke.create_named_sub_element(v.element_name, "c").is_ok() {
+                            out.push((*k, v.element_name));
+                        }
+                    }
+                }
+            }
+        }
+        out
+    })
+}
